@@ -196,7 +196,7 @@ impl Fam {
                 n * n.saturating_sub(1) / 2 * v * v
             }
             Fam::Json { lvl } => JsonPlan::new(base, *lvl).map(|p| p.count()).unwrap_or(0),
-            Fam::Json2 => JsonPlan::new(base, Lvl::Small).map(|p| p.count2()).unwrap_or(0),
+            Fam::Json2 => JsonPlan::for_pairs(base).map(|p| p.count2()).unwrap_or(0),
         }
     }
 
@@ -303,7 +303,7 @@ impl Fam {
                 v
             }
             Fam::Json { lvl } => JsonPlan::new(base, *lvl).expect("json base").apply(k as u64),
-            Fam::Json2 => JsonPlan::new(base, Lvl::Small).expect("json base").apply2(k as u64),
+            Fam::Json2 => JsonPlan::for_pairs(base).expect("json base").apply2(k as u64),
         }
     }
 }
@@ -353,6 +353,9 @@ pub struct JsonPlan {
     /// (path, number of replacements at that node)
     nodes: Vec<(Vec<Step>, u64)>,
     lvl: Lvl,
+    /// nesting bombs among the replacements (left out of the pair family: a bomb next to a second
+    /// deviation adds nothing and costs megabytes per input)
+    bombs: bool,
 }
 
 fn node_at<'a>(v: &'a Value, path: &[Step]) -> &'a Value {
@@ -383,6 +386,14 @@ fn json_string(s: &str) -> String {
 
 impl JsonPlan {
     pub fn new(base: &[u8], lvl: Lvl) -> Option<JsonPlan> {
+        Self::with(base, lvl, true)
+    }
+
+    pub fn for_pairs(base: &[u8]) -> Option<JsonPlan> {
+        Self::with(base, Lvl::Small, false)
+    }
+
+    fn with(base: &[u8], lvl: Lvl, bombs: bool) -> Option<JsonPlan> {
         let root: Value = serde_json::from_slice(base).ok()?;
         let mut paths = vec![];
         fn walk(v: &Value, path: &mut Vec<Step>, out: &mut Vec<Vec<Step>>) {
@@ -406,7 +417,7 @@ impl JsonPlan {
             }
         }
         walk(&root, &mut vec![], &mut paths);
-        let mut plan = JsonPlan { root, nodes: vec![], lvl };
+        let mut plan = JsonPlan { root, nodes: vec![], lvl, bombs };
         let nodes = paths
             .into_iter()
             .map(|p| {
@@ -441,7 +452,7 @@ impl JsonPlan {
         }
         let depths: &[usize] = if full { &BOMB_DEPTHS_FULL } else { &BOMB_DEPTHS_SMALL };
         // nesting bombs are tried at the root and at depth-1 nodes only (a deeper position adds nothing)
-        if path.len() <= 1 {
+        if path.len() <= 1 && self.bombs {
             for d in depths {
                 emit(&|| format!("{}{}", "[".repeat(*d), "]".repeat(*d)));
                 emit(&|| format!("{}0{}", "{\"a\":".repeat(*d), "}".repeat(*d)));
